@@ -137,6 +137,7 @@ def asAOp (s : String) : Except String AOp :=
   | "sub" => .ok .sub
   | "mul" => .ok .mul
   | "div" => .ok .div
+  | "floordiv" => .ok .floordiv
   | _ => .error s!"unknown arithmetic operator {s}"
 
 /-- the operand of an arithmetic request and the side `self` is on -/
@@ -180,6 +181,14 @@ def parseOp (kind : String) (j : Json) : Except String Op := do
   | "changingIndex" =>
     pure (.changingIndex (← getInt j "index") (← parseCIValue (← j.getObjVal? "value")) (← getBool j "uvu"))
   | "indexAsScalar" => pure (.indexAsScalar (← getInt j "index") (← optQty j "quantity"))
+  | "assign" =>
+    match ← getStr j "attr" with
+    | "dimension" => pure (.assign .dimension)
+    | "values" => pure (.assign .values)
+    | "unit" => pure (.assign .unit)
+    | "category" => pure (.assign .category)
+    | "quantity_type" => pure (.assign .quantityType)
+    | a => throw s!"unknown attribute {a}"
   | _ => throw s!"unknown operation {kind}"
 
 /-! ### magnitudes for the float comparison -/
@@ -367,7 +376,7 @@ def handleOne (j : Json) : Except String Json := do
   let op ← getStr j "op"
   match op with
   | "init" | "cwq" | "cea" | "internal" => pure (answerRoute (← parseRoute op j))
-  | "createCopy" | "pickle" | "arith" | "changingIndex" | "indexAsScalar" =>
+  | "createCopy" | "pickle" | "arith" | "changingIndex" | "indexAsScalar" | "assign" =>
     let cls ← asCls (← j.getObjVal? "cls")
     let st ← asState (← j.getObjVal? "src")
     answerOp [] ⟨cls, st⟩ (← parseOp op j)
